@@ -1952,15 +1952,21 @@ rrul_fill_Mly(echs_instant_t *restrict tgt, size_t nti, rrulsp_t rr)
 	     })) {
 		/* we're subtractive, so check if the current ymd matches
 		 * if not, just continue and check the next candidate */
-		if (!(wd_mask & (1U << w))) {
-			/* huh? */
-			continue;
-		} else if (!(m_mask & (1U << m))) {
-			/* skip the whole month */
-			continue;
-		} else if (!(posd_mask & (1U << d)) &&
-			   !(negd_mask & (1U << (maxd - d)))) {
-			/* day is filtered */
+		if (!(wd_mask & (1U << w)) ||
+		    !(m_mask & (1U << m)) ||
+		    (!(posd_mask & (1U << d)) &&
+		     !(negd_mask & (1U << (maxd - d))))) {
+			/* nothing on this day, fast forward to the last stop of
+			 * the day keeping the phase of INTER, and don't run
+			 * past UNTIL while we're at it */
+			const unsigned int left = 1439U - (H * 60U + M);
+			echs_instant_t x = proto;
+
+			x.y = y, x.m = m, x.d = d;
+			if (UNLIKELY(echs_instant_lt_p(rr->until, x))) {
+				goto fin;
+			}
+			M += left / rr->inter * rr->inter;
 			continue;
 		} else if (!(H_mask & (1U << H))) {
 			/* hour is filtered */
@@ -2150,15 +2156,21 @@ rrul_fill_Sly(echs_instant_t *restrict tgt, size_t nti, rrulsp_t rr)
 	     })) {
 		/* we're subtractive, so check if the current ymd matches
 		 * if not, just continue and check the next candidate */
-		if (!(wd_mask & (1U << w))) {
-			/* huh? */
-			continue;
-		} else if (!(m_mask & (1U << m))) {
-			/* skip the whole month */
-			continue;
-		} else if (!(posd_mask & (1U << d)) &&
-			   !(negd_mask & (1U << (maxd - d)))) {
-			/* day is filtered */
+		if (!(wd_mask & (1U << w)) ||
+		    !(m_mask & (1U << m)) ||
+		    (!(posd_mask & (1U << d)) &&
+		     !(negd_mask & (1U << (maxd - d))))) {
+			/* nothing on this day, fast forward to the last stop of
+			 * the day keeping the phase of INTER, and don't run
+			 * past UNTIL while we're at it */
+			const unsigned int left = 86399U - ((H * 60U + M) * 60U + S);
+			echs_instant_t x = proto;
+
+			x.y = y, x.m = m, x.d = d;
+			if (UNLIKELY(echs_instant_lt_p(rr->until, x))) {
+				goto fin;
+			}
+			S += left / rr->inter * rr->inter;
 			continue;
 		} else if (!(H_mask & (1U << H))) {
 			/* hour is filtered */
